@@ -86,6 +86,10 @@ class Center:
         else:
             res = self.offset
 
+        if hasattr(res, "form"):
+            # The offset is rotated as a cartesian vector
+            res = res.copy(form="cartesian")
+
         return self.orientation.convert_to(date, orientation) @ res
 
 
